@@ -14,6 +14,7 @@ def run(ctx, R, tier):
     from ..enginea import run_singular_only
     run_singular_only(R, F, lambda fn: 'track::sub' in fn or 'info::' in fn or 'glam::' in fn or 'listener' in fn, floor=4)
     rigid(F, R)
+    in_chunk(F, R)
     tb = F.body(TRACK + '::process')
     if not R.check(tb is not None, 'B.C15.nolistener', 'anchor', 'Track::process not found'):
         return
@@ -188,53 +189,7 @@ def run(ctx, R, tier):
                 'the signal is not folded to mono exactly when the spatialisation strength is non-zero (at strength 0 the stereo signal must pass unpanned)',
                 detail='if strength != 0.0 { output = output.as_mono(); pan }')
 
-    # ---- distance range
-    rb = F.body('track::sub::spatial_builder::SpatialTrackDistances::relative_distance')
-    if R.check(rb is not None, 'B.C15.range', 'anchor', 'relative_distance not found'):
-        cl = calls_to(rb, 'core::f32::<impl f32>::clamp', suffix=False)
-        divs = [(bb, s) for bb, si, s in rb.stmts() if s['k'] == 'assign' and s['rv']['k'] == 'bin' and s['rv']['op'] == 'Div']
-        sinks = [(bb, 'clamp(min,max)') for bb, t in cl if 'min_distance' in describe(rb, t['args'][1]) and 'max_distance' in describe(rb, t['args'][2])]
-        sinks += [(bb, '/(max-min)') for bb, s in divs if 'max_distance' in describe(rb, s['rv']['b'], at=bb) and 'min_distance' in describe(rb, s['rv']['b'], at=bb)]
-        guarded_here = True
-        for bb, what in sinks:
-            g = False
-            for x in range(rb.n):
-                t = rb.blocks[x]['term']
-                if t['k'] == 'switch' and x != bb and rb.dominates(x, bb):
-                    d = describe(rb, t['op'], depth=4, at=x)
-                    from ..paths import parse_term
-                    gn, ga = parse_term(d)
-                    # only the TRUE side of a strict `min < max` (or `max > min`) establishes an ordered, non-NaN pair:
-                    # `<=` admits min == max (0/0), and the false side of `>=` admits NaN (f32::clamp panics)
-                    strict = ga is not None and len(ga) == 2 and (
-                        (gn == 'Lt' and 'min_distance' in ga[0] and 'max_distance' in ga[1]) or
-                        (gn == 'Gt' and 'max_distance' in ga[0] and 'min_distance' in ga[1]))
-                    if strict:
-                        true_t = t['otherwise']
-                        false_t = dict(t['targets']).get('0')
-                        if rb.dominates(true_t, bb) and (false_t is None or bb not in rb.reachable([false_t], stop=[x])):
-                            g = True
-            if not g:
-                guarded_here = False
-        # or: every constructor orders / validates the pair
-        ctor_ok = constructors_ordered(F)
-        R.check(bool(sinks) and (guarded_here or ctor_ok) if sinks else True, 'B.C15.range', 'relative_distance',
-                'SpatialTrackDistances::relative_distance uses f32::clamp(min_distance, max_distance) and divides by (max_distance - '
-                'min_distance) but nothing establishes min < max, neither here nor where the struct is built from user input '
-                '(From<(f32,f32)>, From<[f32;2]>, From<RangeInclusive<f32>>, public fields): distances((10.0, 1.0)) panics inside '
-                'f32::clamp on the audio thread, distances((5.0, 5.0)) divides 0/0 and emits NaN',
-                detail={'sinks': [w for _, w in sinks], 'guarded_in_fn': guarded_here, 'constructors_order_bounds': ctor_ok},
-                where=rb.file)
-        if not sinks:
-            R.ok('B.C15.range', 'relative_distance', detail='no clamp(min,max) / division by (max-min) on raw bounds')
-        # the falloff itself: (clamp(distance, min, max) - min) / (max - min), 0 at the minimum distance and 1 at the maximum
-        rets = [str(p.ret) for p in explore(rb) if p.end == 'return']
-        want = 'Div(Sub(core::f32::<impl f32>::clamp(distance, (*self).min_distance, (*self).max_distance), (*self).min_distance), Sub((*self).max_distance, (*self).min_distance))'
-        rets = [r.replace('(*self)', 'self') for r in rets]
-        want = want.replace('(*self)', 'self')
-        R.check(want in rets, 'B.C15.range', 'formula',
-                'relative_distance does not return (clamp(distance, min, max) - min) / (max - min) (returns %s): unity within the minimum '
-                'distance and zero at the maximum would not hold' % [r[:90] for r in rets], detail={'returns': [r[:120] for r in rets]})
+    distance_range(F, R)
 
     # ---- finite output: no normalisation of a vector that can be zero
     nn = 0
@@ -346,3 +301,80 @@ def rigid(F, R):
                             'direction' if what == 'dir' else 'offset', part[:120])
                         break
         R.check(bad is None, 'B.C15.rigid', what, '%s: %s' % (fn, bad), detail='orientation * constant (+ position)', where=b.file)
+
+
+def distance_range(F, R):
+    """The distance range: ordered bounds before clamp / division, and the falloff (clamp(d, min, max) - min) / (max - min) -
+    which is also what keeps the argument of the attenuation easing inside [0, 1]."""
+    # ---- distance range
+    rb = F.body('track::sub::spatial_builder::SpatialTrackDistances::relative_distance')
+    if R.check(rb is not None, 'B.C15.range', 'anchor', 'relative_distance not found'):
+        cl = calls_to(rb, 'core::f32::<impl f32>::clamp', suffix=False)
+        divs = [(bb, s) for bb, si, s in rb.stmts() if s['k'] == 'assign' and s['rv']['k'] == 'bin' and s['rv']['op'] == 'Div']
+        sinks = [(bb, 'clamp(min,max)') for bb, t in cl if 'min_distance' in describe(rb, t['args'][1]) and 'max_distance' in describe(rb, t['args'][2])]
+        sinks += [(bb, '/(max-min)') for bb, s in divs if 'max_distance' in describe(rb, s['rv']['b'], at=bb) and 'min_distance' in describe(rb, s['rv']['b'], at=bb)]
+        guarded_here = True
+        for bb, what in sinks:
+            g = False
+            for x in range(rb.n):
+                t = rb.blocks[x]['term']
+                if t['k'] == 'switch' and x != bb and rb.dominates(x, bb):
+                    d = describe(rb, t['op'], depth=4, at=x)
+                    from ..paths import parse_term
+                    gn, ga = parse_term(d)
+                    # only the TRUE side of a strict `min < max` (or `max > min`) establishes an ordered, non-NaN pair:
+                    # `<=` admits min == max (0/0), and the false side of `>=` admits NaN (f32::clamp panics)
+                    strict = ga is not None and len(ga) == 2 and (
+                        (gn == 'Lt' and 'min_distance' in ga[0] and 'max_distance' in ga[1]) or
+                        (gn == 'Gt' and 'max_distance' in ga[0] and 'min_distance' in ga[1]))
+                    if strict:
+                        true_t = t['otherwise']
+                        false_t = dict(t['targets']).get('0')
+                        if rb.dominates(true_t, bb) and (false_t is None or bb not in rb.reachable([false_t], stop=[x])):
+                            g = True
+            if not g:
+                guarded_here = False
+        # or: every constructor orders / validates the pair
+        ctor_ok = constructors_ordered(F)
+        R.check(bool(sinks) and (guarded_here or ctor_ok) if sinks else True, 'B.C15.range', 'relative_distance',
+                'SpatialTrackDistances::relative_distance uses f32::clamp(min_distance, max_distance) and divides by (max_distance - '
+                'min_distance) but nothing establishes min < max, neither here nor where the struct is built from user input '
+                '(From<(f32,f32)>, From<[f32;2]>, From<RangeInclusive<f32>>, public fields): distances((10.0, 1.0)) panics inside '
+                'f32::clamp on the audio thread, distances((5.0, 5.0)) divides 0/0 and emits NaN',
+                detail={'sinks': [w for _, w in sinks], 'guarded_in_fn': guarded_here, 'constructors_order_bounds': ctor_ok},
+                where=rb.file)
+        if not sinks:
+            R.ok('B.C15.range', 'relative_distance', detail='no clamp(min,max) / division by (max-min) on raw bounds')
+        # the falloff itself: (clamp(distance, min, max) - min) / (max - min), 0 at the minimum distance and 1 at the maximum
+        rets = [str(p.ret) for p in explore(rb) if p.end == 'return']
+        want = 'Div(Sub(core::f32::<impl f32>::clamp(distance, (*self).min_distance, (*self).max_distance), (*self).min_distance), Sub((*self).max_distance, (*self).min_distance))'
+        rets = [r.replace('(*self)', 'self') for r in rets]
+        want = want.replace('(*self)', 'self')
+        R.check(want in rets, 'B.C15.range', 'formula',
+                'relative_distance does not return (clamp(distance, min, max) - min) / (max - min) (returns %s): unity within the minimum '
+                'distance and zero at the maximum would not hold' % [r[:90] for r in rets], detail={'returns': [r[:120] for r in rets]})
+
+
+
+def in_chunk(F, R):
+    """Listener pose and emitter position are read at the same in-chunk time: ListenerInfo::interpolated_position /
+    _orientation are, on every path, the lerp from the previous to the current value (the lerp of the orientation is what
+    re-normalises it), and SpatialData::spatialize reads the emitter position with
+    `position.interpolated_value(time_in_chunk)` - not the end-of-chunk `value()`, which would move the emitter a chunk ahead
+    of the listener when both are shifted together."""
+    for fn, op in (('info::ListenerInfo::interpolated_position', 'glam::Vec3::lerp'), ('info::ListenerInfo::interpolated_orientation', 'glam::Quat::lerp')):
+        b = F.body(fn)
+        if not R.check(b is not None, 'B.C15.in-chunk', 'anchor:' + fn.split('::')[-1], '%s not found' % fn):
+            continue
+        rets = [str(p.ret) for p in explore(b) if p.end == 'return']
+        okr = bool(rets) and all((op + '(') in r and 'previous_' in r and 'amount' in r and r.count('::lerp(') == 1 for r in rets)
+        R.check(okr, 'B.C15.in-chunk', fn.split('::')[-1], '%s returns %s: not the lerp of previous and current on every path' % (fn, [r[:70] for r in rets][:3]),
+                detail={'returns': [r[:90] for r in rets]}, where=b.file)
+    sb = F.body('track::sub::SpatialData::spatialize')
+    if R.check(sb is not None, 'B.C15.in-chunk', 'anchor:spatialize', 'spatialize not found'):
+        reads = [(x, (callee_path(t) or '').split('::')[-1], describe(sb, t['args'][0], depth=3, at=x)) for x, t in sb.calls()
+                 if (callee_path(t) or '').startswith('parameter::Parameter::<T>::') and (callee_path(t) or '').split('::')[-1] in ('value', 'previous_value', 'interpolated_value')]
+        bad = [(nm, d) for x, nm, d in reads if nm != 'interpolated_value']
+        pos = [d for x, nm, d in reads if d.endswith('.position')]
+        R.check(not bad and bool(pos), 'B.C15.in-chunk', 'spatialize', 'spatialize reads %s with an end-of-chunk getter instead of interpolated_value(time_in_chunk)' % bad,
+                detail={'reads': [(nm, d) for _, nm, d in reads]}, where=sb.file)
